@@ -78,6 +78,24 @@ theorem c37_complete (keys : List Cid) (evs : List Ev)
   rw [b3] at hc2
   exact hc2 (hdel c hc1)
 
+/-- **Why Subscribe must precede want() — the model's ordering assumption, and what breaks without it.**
+`start` models AsyncGetBlocks as the code has it: `notif.Subscribe(keys)` first, then `want(keys)`. A block that is
+published BEFORE the subscription exists reaches nobody (cskr/pubsub delivers to current subscribers only), i.e. it
+is no event of the request at all. This theorem is the consequence: if the only publish of a requested key `c`
+happened before the subscription (so the schedule after `start` contains no publish of `c`), then for EVERY
+schedule `c` is never delivered — with want-before-subscribe a zero-latency peer's block is lost for good and the
+request cannot complete (`c37_complete` needs every key delivered). The harness ties the real order with the
+`zget` scenario (blocks published from inside the want callback must be delivered). -/
+theorem c37_want_before_subscribe_loses_block (keys : List Cid) (c : Cid) (evs : List Ev)
+    (hnopub : ∀ e ∈ evs, e ≠ .publish c) : c ∉ (after keys evs).delivered := by
+  have h0 : inFlight (start keys) c = 0 := by
+    unfold start; split <;> simp [inFlight]
+  have h := run_nopub_inFlight c evs hnopub (start keys) h0
+  intro hc
+  have : 0 < (after keys evs).delivered.count c := List.count_pos_iff.mpr hc
+  simp only [inFlight, after] at h this
+  omega
+
 /-! Non-vacuity: a request with a duplicate key; every block published twice, one unrequested publish -/
 def exSched : List Ev :=
   [.publish 7, .publish 1, .publish 1, .fRecv, .fSend, .hRecv, .read, .publish 2, .publish 2, .fRecv, .fSend, .hRecv,
